@@ -394,8 +394,8 @@ func genMany(t *rapid.T, s Script) Script {
 		if lowHeavy && p <= n-bound {
 			// the lowest priorities still have data, most of it still in the hands of their producers,
 			// when all the others are done
-			pre = pick(t, "prefilllow", 3, 5, 8, 12)
-			cp = pick(t, "caplow", 0, 1, 2)
+			pre = pick(t, "prefilllow", 3, 5, 8, 12, int(s.H)+5, 2*int(s.H))
+			cp = pick(t, "caplow", 0, 1, 2, 8)
 		} else if lowHeavy {
 			pre = pick(t, "prefillhigh", 0, 0, 0, 1)
 		}
